@@ -474,7 +474,11 @@ func c05Case(c *core.Ctx, i int64, r *rand.Rand) {
 	}
 	var out, lg bytes.Buffer
 	var err error
-	pan, stack := protect(func() { err = bcl.Unmarshal(src, ptr.Interface(), bcl.OptOutput(&out), bcl.OptLogger(&lg)) })
+	in := append([]byte{}, src...)
+	pan, stack := protect(func() { err = bcl.Unmarshal(in, ptr.Interface(), bcl.OptOutput(&out), bcl.OptLogger(&lg)) })
+	for k := range in {
+		in[k] = '#' // the caller reuses its buffer: the target must not refer to it
+	}
 	c.Eval(1)
 	det := func() map[string]any {
 		return map[string]any{"source": core.Trunc(string(src), 3000), "go_type": core.Trunc(t.String(), 1500), "binding": sel + "->" + target, "log": lg.String()}
